@@ -528,6 +528,11 @@ func replayKnown(b *build, id string) int {
 			fmt.Fprintln(os.Stderr, out)
 			fatal(2, "replay of known finding %s failed: %v", path, err)
 		}
+		if (r.Replayed == nil || r.Replayed.Signature != f.Signature) && r.Diverged != "" {
+			// the recorded decisions no longer line up with what the harness asks: the file is
+			// stale (harness changed), which says nothing about the defect
+			fmt.Fprintf(os.Stderr, "verifcheck: note: the replay file of listed finding %s (%s) no longer matches the harness (%s); re-record it with -record-known\n", f.Signature, filepath.Base(path), r.Diverged)
+		}
 		if r.Replayed != nil && r.Replayed.Signature == f.Signature {
 			n++
 			fmt.Printf("KNOWN-FINDING: property=%s %s: %s\n", id, f.Signature, oneLine(r.Replayed.Message, 300))
